@@ -1,5 +1,7 @@
 """C20 -- results are independent of processing history and inputs are left unmodified (structural clauses)."""
 import ast
+
+from sa.util import acl_scratch_write
 import os
 
 from sa import guards as G
@@ -225,8 +227,7 @@ def r1b(c, reg):
                 if (rmod, rq, rp) in allowed and rq == "_find_acl_matches":
                     # only the one scratch field the property exempts: <rule>['attrs']['match'] = ...
                     wn = s_.root[3]
-                    tgt = wn.targets[0] if isinstance(wn, ast.Assign) else None
-                    only_match = isinstance(tgt, ast.Subscript) and isinstance(tgt.slice, ast.Constant) and tgt.slice.value == "match" and norm(tgt.value).replace('"', "'").endswith("['attrs']")
+                    only_match = acl_scratch_write(repo, wn)
                     if only_match:
                         c.holds("C20.R1b", at, construct, f"allowed: {allowed[(rmod, rq, rp)]}")
                     else:
@@ -448,8 +449,7 @@ def r5(c):
 
     def exempt(site):
         wn = site.root[3]
-        tgt = wn.targets[0] if isinstance(wn, ast.Assign) else None
-        return isinstance(tgt, ast.Subscript) and isinstance(tgt.slice, ast.Constant) and tgt.slice.value == "match" and norm(tgt.value).replace('"', "'").endswith("['attrs']")
+        return acl_scratch_write(repo, wn)
     seen = set()
     for m, q, call, src, callee, sites in cm.arg_sinks(eff):
         real = [s_ for s_ in sites if not exempt(s_)]
